@@ -304,10 +304,25 @@ def _task_streams_of_constructed(task):
         mod = _pkmod_cached(thr)
         if mod is None:
             continue
-        for source, r in (("bytesio", 1), ("bytesio", 7), ("bytesio", 64), ("bytesio", None), ("bytes", None), ("socket", 5), ("socket", 64)):
+        for source, r in (("bytesio", 1), ("bytesio", 7), ("bytesio", 64), ("bytesio", None), ("bytes", None), ("socket", 5), ("socket", 64),
+                          ("file-half-flushed", None), ("file-half-flushed", 64)):
             t.evals += 1
             t.nontrivial += 1
-            src = stream if source == "bytes" else io.BytesIO(stream) if source == "bytesio" else ScriptedSocket(stream, lambda n, remaining, key, s_: min(n, remaining, 11), inspect=False)
+            fh = None
+            if source == "file-half-flushed":
+                # a read/write file: the first packets written and flushed, the rest written and still in the file object's buffer
+                import os
+                from mc import VERIF_ROOT
+                os.makedirs(os.path.join(VERIF_ROOT, ".work"), exist_ok=True)
+                pth = os.path.join(VERIF_ROOT, ".work", f"c13s_{os.getpid()}.bin")
+                fh = open(pth, "w+b")
+                half = len(b"".join(bytes(p) for p in pkts[:max(1, len(pkts) // 2)]))
+                fh.write(stream[:half])
+                fh.flush()
+                fh.write(stream[half:])
+                src = fh
+            else:
+                src = stream if source == "bytes" else io.BytesIO(stream) if source == "bytesio" else ScriptedSocket(stream, lambda n, remaining, key, s_: min(n, remaining, 11), inspect=False)
             try:
                 items, end = pull(mod.ccsds_generator(src, buffer_read_size_bytes=r), horizon=len(pkts) + 2)
                 bad = None
@@ -320,6 +335,9 @@ def _task_streams_of_constructed(task):
                             break
             except Exception as e:  # noqa: BLE001
                 bad = f"raised {type(e).__name__}: {str(e)[:80]}"
+            if fh is not None:
+                fh.close()
+                os.unlink(pth)
             if bad:
                 t.violation({"kind": "reframe-stream", "source": source, "trimmed": thr is not None}, {"stream_of_constructed": True, "n": task["n"], "threshold": thr, "source": source, "r": r},
                             observed=bad, note="a stream of constructed packets is not re-framed into those packets")
